@@ -75,6 +75,18 @@ Print Assumptions C04_branches_in_order.
 Print Assumptions C04_branch_and_guard.
 Print Assumptions C04_consumes_only_pending.
 
+(** the names the engine model writes when an action fails or no branch is
+    followed, and the name of the node it then goes to, are read from
+    Spec.Step and Spec.Walk in the source of the tree under test
+    (Gen/Names.v, written by harness/cmd/genconsts on every run); they are the
+    names the rule of Spec/StepRule.v is written with *)
+Theorem C04_error_names_are_documented :
+  step_action_error_key = "actionError" /\ step_error_key = "error"
+  /\ step_last_node_key = "lastNode" /\ step_last_bindings_key = "lastBindings"
+  /\ error_node_literal = "error".
+Proof. exact error_names_documented. Qed.
+Print Assumptions C04_error_names_are_documented.
+
 (** non-vacuity: a node with an action that sets a binding, then two
     bindings branches of which the second fires *)
 From Sheens Require Import Model.Action.
